@@ -286,24 +286,43 @@ pub fn run_c09(ctx: &Ctx) -> (Report, String) {
 /// few large squares), the other small - thresholds a dense small box never reaches.
 fn boundary_images(ctx: &Ctx, prop: &'static str) -> Report {
     let mut dims: Vec<(usize, usize)> = vec![];
-    for d in [255usize, 256, 257, 1023, 1025, 4095, 4097, 8191, 8193, 16383, 16385, 32767, 32769, 65534, 65535, 65536, 65537, 131071, 131073] {
+    for d in [255usize, 256, 257, 1023, 1025, 4095, 4097, 8191, 8193, 16383, 16385, 32767, 32769, 65534, 65535, 65536, 65537, 131071, 131073, 262143, 262145, 524287, 524289, 1048575, 1048577] {
         for s in [1usize, 2, 9, 10, 11, 17] {
             dims.push((d, s));
             dims.push((s, d));
         }
     }
-    dims.extend([(1024, 1024), (1031, 1027), (2050, 514)]);
+    dims.extend([(1024, 1024), (1031, 1027), (2050, 514), (1280, 720), (1920, 1080), (1084, 971), (300_001, 10), (10, 300_001), (2_100_000, 2)]);
     let reps = par_shards(dims.len(), ctx.threads, |k| {
         let (w, h) = dims[k];
         let mut rep = Report::new();
         let mut rng = Rng::new(ctx.seed ^ 0xC09AD, k as u64);
-        let mut d = vec![0u8; w * h];
-        rng.fill(&mut d);
-        for s in [1u8 + (k % 12) as u8, 12] {
+        for (ci, s) in [(0usize, 1u8 + (k % 12) as u8), (1, 12), (2, 1 + ((k / 3) % 12) as u8)] {
+            let mut d = vec![0u8; w * h];
+            match ci {
+                0 => rng.fill(&mut d),
+                1 => {
+                    // uniform rows / uniform columns: every edge sees the same four samples all along
+                    let by_rows = k % 2 == 0;
+                    let mut t = vec![0u8; if by_rows { h } else { w }];
+                    rng.fill(&mut t);
+                    for (i, v) in d.iter_mut().enumerate() {
+                        *v = if by_rows { t[i / w] } else { t[i % w] };
+                    }
+                }
+                _ => {
+                    // content repeating with period 8 along the long dimension
+                    let mut t = [0u8; 64];
+                    rng.fill(&mut t);
+                    for (i, v) in d.iter_mut().enumerate() {
+                        *v = t[((i / w) % 8) * 8 + (i % w) % 8];
+                    }
+                }
+            }
             rep.evaluations += 1;
-            if compare(&d, w, s, &mut rep, &format!("boundary {}x{} strength {}", w, h, s), prop) {
+            if compare(&d, w, s, &mut rep, &format!("boundary {}x{} strength {} content {}", w, h, s, ci), prop) {
                 rep.count("boundary_images");
-                rep.distinct.insert(fnv64(&[(w >> 16) as u8, (w >> 8) as u8, w as u8, (h >> 16) as u8, (h >> 8) as u8, h as u8, s]));
+                rep.distinct.insert(fnv64(&[(w >> 16) as u8, (w >> 8) as u8, w as u8, (h >> 16) as u8, (h >> 8) as u8, h as u8, s, ci as u8]));
             }
         }
         rep
